@@ -55,6 +55,8 @@ theorem finalizePost_pay (c : Cfg) : ∀ (post : List Item) (log : List Req) (ou
   | cons it rest ih =>
     intro log out resp hp hr
     simp only [finalizePost]
+    split
+    · exact ⟨⟨[], rfl⟩, hr, hp⟩
     cases hcm : commit it log with
     | none => exact ⟨⟨[], rfl⟩, hr, hp⟩
     | some p =>
@@ -131,10 +133,15 @@ theorem tick_pay (c : Cfg) (s : State) (hi : Inv c s) (h : Pay c s) : Pay c (tic
   · exact h1
   · have i2 := tickPipes_inv c _ i1
     have i3 := tickDelays_inv c _ i2
-    refine ⟨h1.rsp, ?_⟩
-    intro k it hit
-    rw [drainTop_chain, (dispatch_chain c _ k i3.wf).2, tickDelays_chain c _ i2.wf, tickPipes_chain c _ i1.wf] at hit
-    exact h1.itm k it hit
+    split
+    · refine ⟨h1.rsp, ?_⟩
+      intro k it hit
+      rw [tickDelays_chain c _ i2.wf, tickPipes_chain c _ i1.wf] at hit
+      exact h1.itm k it hit
+    · refine ⟨h1.rsp, ?_⟩
+      intro k it hit
+      rw [drainTop_chain, (dispatch_chain c _ k i3.wf).2, tickDelays_chain c _ i2.wf, tickPipes_chain c _ i1.wf] at hit
+      exact h1.itm k it hit
 
 theorem step_pay (c : Cfg) (s : State) (op : Op) (hi : Inv c s) (h : Pay c s) : Pay c (step c s op) := by
   cases op with
